@@ -158,4 +158,190 @@ Proof.
     rewrite unset_pdm_board. reflexivity.
 Qed.
 
+
+(* every pseudo-legal target is a real board square: it holds no Boundary *)
+Lemma step_target_not_boundary b c m q x : In x (step_target b c m q) -> get b x <> Boundary.
+Proof.
+  unfold step_target. destruct (is_empty_or_color (get b q) (opposite c)) eqn:E; [|intros []].
+  intros H. assert (x = q).
+  { destruct (mode_all m); [destruct H as [<-|[]]; reflexivity|].
+    destruct (negb (is_empty (get b q))); [destruct H as [<-|[]]; reflexivity|destruct H]. }
+  subst x. intros B. rewrite B in E. discriminate.
+Qed.
+
+Lemma ray_not_boundary fuel b d m enemy : forall p x, In x (ray fuel b p d m enemy) -> get b x <> Boundary.
+Proof.
+  induction fuel as [|f IH]; intros p x H; cbn [ray] in H; [contradiction|].
+  destruct (is_empty (get b p)) eqn:Em.
+  - apply in_app_or in H. destruct H as [H|H]; [|eapply IH; eauto].
+    destruct (mode_all m); [|contradiction]. destruct H as [<-|[]]. intros B. rewrite B in Em. discriminate.
+  - destruct (is_color (get b p) enemy) eqn:C; [|contradiction].
+    destruct H as [<-|[]]. intros B. rewrite B in C. discriminate.
+Qed.
+
+Lemma is_color_nb sq c : is_color sq c = true -> sq <> Boundary.
+Proof. intros H B. subst sq. discriminate. Qed.
+Lemma is_empty_nb sq : is_empty sq = true -> sq <> Boundary.
+Proof. intros H B. subst sq. discriminate. Qed.
+
+Lemma in_single_if (c : bool) (q x : point) : In x (if c then [q] else []) -> c = true /\ x = q.
+Proof. destruct c; [intros [<-|[]]; auto|intros []]. Qed.
+
+Lemma pawn_not_boundary pc p b m x : In x (pawn_moves pc p b m) -> get b x <> Boundary.
+Proof.
+  unfold pawn_moves. destruct p as [row col].
+  destruct (pcolor pc); intros H;
+  (apply in_app_or in H; destruct H as [H|H];
+   [apply in_single_if in H; destruct H as [E ->]; eapply is_color_nb; exact E|]);
+  (apply in_app_or in H; destruct H as [H|H];
+   [apply in_single_if in H; destruct H as [E ->]; eapply is_color_nb; exact E|]);
+  match type of H with In x (if ?c then _ else _) => destruct c eqn:E3; [|contradiction] end;
+  apply andb_true_iff in E3; destruct E3 as [_ E3];
+  (destruct H as [<-|H]; [apply is_empty_nb; exact E3|]);
+  apply in_single_if in H; destruct H as [E4 ->];
+  apply andb_true_iff in E4; destruct E4 as [_ E4]; apply is_empty_nb; exact E4.
+Qed.
+
+Lemma get_moves_not_boundary pc p b m x : In x (get_moves pc p b m) -> get b x <> Boundary.
+Proof.
+  unfold get_moves. destruct (pkind pc).
+  - apply pawn_not_boundary.
+  - unfold knight_moves. intros H. apply in_flat_map in H. destruct H as [d [_ H]]. eapply step_target_not_boundary; eauto.
+  - unfold bishop_moves, slide. intros H. apply in_flat_map in H. destruct H as [d [_ H]]. eapply ray_not_boundary; eauto.
+  - unfold rook_moves, slide. intros H. apply in_flat_map in H. destruct H as [d [_ H]]. eapply ray_not_boundary; eauto.
+  - unfold queen_moves, rook_moves, bishop_moves, slide. intros H. apply in_app_or in H.
+    destruct H as [H|H]; apply in_flat_map in H; destruct H as [d [_ H]]; eapply ray_not_boundary; eauto.
+  - unfold king_moves. intros H. apply in_flat_map in H. destruct H as [d [_ H]]. eapply step_target_not_boundary; eauto.
+Qed.
+
+(* ---- ordinary moves and promotions *)
+Lemma successors_of_move_key_ok s pc sq mov x :
+  key_ok s -> board_ok (board s) -> is_inner sq = true -> get (board s) sq = Full pc ->
+  get (board s) mov <> Boundary ->
+  In x (successors_of_move zt s pc sq mov) -> key_ok x.
+Proof.
+  intros H [L R] Hs Gs Gm Hx.
+  pose proof (not_boundary_inner _ _ R Gm) as Hm.
+  unfold successors_of_move in Hx.
+  destruct (moved_board zt s pc sq mov) as [nb|] eqn:MB; [|contradiction].
+  destruct (moved_board_key_ok s pc sq mov nb H L Hs Hm MB) as [K [Ln Bn]].
+  pose proof (finalise_key_ok nb pc sq mov K) as KF.
+  assert (GT : get (board (finalise zt nb pc sq mov)) mov = Full pc).
+  { rewrite finalise_board, Bn.
+    (* the board of moved_board is that of move_piece on a state with the same squares as s *)
+    unfold move_piece. rewrite Gs. cbn [board with_key with_board].
+    apply get_set_same; [now apply is_inner_in_grid|now rewrite set_length]. }
+  assert (LF : length (board (finalise zt nb pc sq mov)) = 144%nat) by (now rewrite finalise_board).
+  destruct ((fst mov =? BOARD_START)%Z && color_eqb (pcolor pc) White && is_pawn_kind (pkind pc)) eqn:P1.
+  - apply andb_true_iff in P1. destruct P1 as [P1 PK]. apply andb_true_iff in P1. destruct P1 as [_ PC].
+    eapply promote_pawn_key_ok; [exact KF|exact LF|exact Hm| |exact Hx].
+    rewrite GT. destruct pc as [c k]. cbn [pcolor pkind] in *. destruct c; [|discriminate]. destruct k; try discriminate. reflexivity.
+  - destruct ((fst mov =? BOARD_END - 1)%Z && color_eqb (pcolor pc) Black && is_pawn_kind (pkind pc)) eqn:P2.
+    + apply andb_true_iff in P2. destruct P2 as [P2 PK]. apply andb_true_iff in P2. destruct P2 as [_ PC].
+      eapply promote_pawn_key_ok; [exact KF|exact LF|exact Hm| |exact Hx].
+      rewrite GT. destruct pc as [c k]. cbn [pcolor pkind] in *. destruct c; [discriminate|]. destruct k; try discriminate. reflexivity.
+    + destruct Hx as [<-|[]]. exact KF.
+Qed.
+
+(* ---- en passant: the recorded target is consistent with the pawn that just double-stepped *)
+Definition ep_sane (s : BoardState) : Prop :=
+  forall t, pawn_double_move s = Some t ->
+    is_inner t = true /\
+    let v := match to_move s with White => (fst t + 1, snd t)%Z | Black => (fst t - 1, snd t)%Z end in
+    is_inner v = true /\ get (board s) v = Full (mkPiece (opposite (to_move s)) Pawn).
+
+Lemma en_passant_successor_key_ok s pc sq x :
+  key_ok s -> board_ok (board s) -> ep_sane s -> is_inner sq = true -> get (board s) sq = Full pc ->
+  pcolor pc = to_move s ->
+  In x (en_passant_successor zt s pc sq) -> key_ok x.
+Proof.
+  intros H [L R] EP Hs Gs PC Hx. unfold en_passant_successor in Hx.
+  destruct (pawn_double_move s) as [dm|] eqn:D; [|contradiction].
+  destruct (pkind pc) eqn:PK; try contradiction.
+  destruct (pawn_moves_en_passant pc sq s) as [mov|] eqn:E; [|contradiction].
+  assert (mov = dm).
+  { unfold pawn_moves_en_passant in E. rewrite D in E. destruct sq as [row col].
+    destruct (pcolor pc); match type of E with context [if ?c then _ else _] => destruct c end; try discriminate;
+    repeat match type of E with context [if point_eqb ?a ?b then _ else _] => destruct (point_eqb_spec a b) end;
+    try discriminate; inversion E; subst; reflexivity. }
+  subst mov. destruct (EP dm D) as [Hm [Hv Gv]].
+  match type of Hx with In x (if ?c then _ else _) => destruct c; [|contradiction] end.
+  destruct Hx as [<-|[]].
+  set (s1 := unset_pawn_double_move zt (swap_color zt (with_last (with_promo s None) (Some (sq, dm))))).
+  assert (K1 : key_ok s1) by (unfold s1; apply unset_pdm_key_ok, swap_color_key_ok; exact H).
+  assert (B1 : board s1 = board s) by (unfold s1; rewrite unset_pdm_board; reflexivity).
+  destruct (move_piece_key_ok s1 sq dm K1 ltac:(now rewrite B1) Hs Hm) as [K2 L2].
+  set (v := match pcolor pc with White => (fst dm + 1, snd dm)%Z | Black => (fst dm - 1, snd dm)%Z end).
+  assert (Ev : v = match to_move s with White => (fst dm + 1, snd dm)%Z | Black => (fst dm - 1, snd dm)%Z end) by (unfold v; now rewrite PC).
+  rewrite <- Ev in Hv, Gv.
+  assert (G2 : get (board (move_piece zt s1 sq dm)) v = Full (mkPiece (opposite (pcolor pc)) Pawn)).
+  { unfold move_piece. rewrite B1, Gs. cbn [board with_key with_board].
+    rewrite !get_set_other; [rewrite PC; exact Gv| |].
+    - intros Eq. rewrite Eq in Gs. rewrite Gs in Gv. inversion Gv as [Hp]. rewrite <- PC in Hp.
+      destruct pc as [c k]; cbn [pcolor] in Hp. inversion Hp as [Hc]. destruct c; discriminate.
+    - intros Eq. unfold v in Eq. destruct dm as [r c]. destruct (pcolor pc); cbn [fst snd] in Eq; inversion Eq; lia. }
+  pose proof (key_ok_set _ v Empty K2 L2 Hv) as K3. rewrite G2 in K3. cbn [zterm] in K3.
+  eapply key_ok_same_key; [exact K3| |].
+  - cbn [kx zobrist_key with_key with_board]. fold s1. fold v. xor_solve.
+  - unfold abs. cbn [kx with_key with_board board to_move wks wqs bks bqs pawn_double_move]. fold s1. fold v. reflexivity.
+Qed.
+
+(* ---- castling *)
+Lemma castle_successor_key_ok s c r1 r2 kt alg rf rt :
+  key_ok s -> length (board s) = 144%nat -> is_inner (king_location s c) = true ->
+  is_inner kt = true -> is_inner rf = true -> is_inner rt = true ->
+  key_ok (castle_successor zt s c r1 r2 kt alg rf rt).
+Proof.
+  intros H L Hk Hkt Hrf Hrt. unfold castle_successor.
+  set (s1 := with_last (set_king (take_away_castling_rights zt (take_away_castling_rights zt
+               (unset_pawn_double_move zt (swap_color zt (with_promo s None))) r1) r2) c kt) (Some alg)).
+  assert (K1 : key_ok s1).
+  { unfold s1. unfold HashProofs.key_ok. cbn [zobrist_key with_last abs board to_move wks wqs bks bqs pawn_double_move].
+    apply (key_ok_cache _ c kt). apply take2_key_ok, unset_pdm_key_ok, swap_color_key_ok. exact H. }
+  assert (B1 : board s1 = board s).
+  { unfold s1. cbn [board with_last]. unfold set_king. destruct c; cbn [board with_wk with_bk];
+    rewrite !take_away_board, unset_pdm_board; reflexivity. }
+  destruct (move_piece_key_ok s1 (king_location s c) kt K1 ltac:(now rewrite B1) Hk Hkt) as [K2 L2].
+  destruct (move_piece_key_ok _ rf rt K2 L2 Hrf Hrt) as [K3 _]. exact K3.
+Qed.
+
+Definition gen_ok (s : BoardState) : Prop :=
+  key_ok s /\ board_ok (board s) /\ ep_sane s /\
+  is_inner (white_king_location s) = true /\ is_inner (black_king_location s) = true.
+
+(* the theorem: every successor the generator produces, in both modes, satisfies key = from-scratch hash *)
+Theorem generate_moves_key_ok s m x : gen_ok s -> In x (generate_moves zt s m) -> key_ok x.
+Proof.
+  intros (H & BO & EP & WK & BK) Hx. unfold generate_moves in Hx. apply in_app_or in Hx. destruct Hx as [Hx|Hx].
+  - apply in_flat_map in Hx. destruct Hx as [p [Hp Hx]].
+    assert (Hin : is_inner p = true).
+    { clear - Hp. unfold inner_points in Hp. apply in_flat_map in Hp. destruct Hp as [r [Hr Hp]].
+      apply in_map_iff in Hp. destruct Hp as [c [<- Hc]]. apply is_inner_spec. cbn [fst snd].
+      unfold inner_range in *. cbn in Hr, Hc. lia. }
+    destruct (get (board s) p) as [|pc|] eqn:G; try contradiction.
+    destruct (color_eqb_spec (pcolor pc) (to_move s)) as [PC|]; [|contradiction].
+    unfold generate_moves_for_piece in Hx. apply in_app_or in Hx. destruct Hx as [Hx|Hx].
+    + apply in_flat_map in Hx. destruct Hx as [mov [Hmov Hx]].
+      eapply successors_of_move_key_ok; eauto. eapply get_moves_not_boundary; eauto.
+    + eapply en_passant_successor_key_ok; eauto.
+  - destruct (mode_all m); [|contradiction]. unfold generate_castling_moves in Hx. destruct BO as [L R].
+    repeat (apply in_app_or in Hx; destruct Hx as [Hx|Hx]);
+      match type of Hx with In x (if ?c then _ else _) => destruct c; [|contradiction] end;
+      destruct Hx as [<-|[]]; apply castle_successor_key_ok; auto; reflexivity.
+Qed.
+
 End K.
+
+(* the executable well-formedness test implies the ring property used above *)
+Lemma wf_cells_board_ok b : wf_cells b = true -> board_ok b.
+Proof.
+  unfold wf_cells. intros H. apply andb_true_iff in H. destruct H as [HL HF].
+  apply Nat.eqb_eq in HL. split; [exact HL|].
+  intros p Hp. destruct (in_grid p) eqn:G; [|now apply get_out_of_grid].
+  apply in_grid_spec in G. destruct p as [r c]. cbn [fst snd] in G.
+  rewrite forallb_forall in HF.
+  assert (Hr : In r [0; 1; 2; 3; 4; 5; 6; 7; 8; 9; 10; 11]%Z) by (cbn; lia).
+  assert (Hc : In c [0; 1; 2; 3; 4; 5; 6; 7; 8; 9; 10; 11]%Z) by (cbn; lia).
+  specialize (HF r Hr). rewrite forallb_forall in HF. specialize (HF c Hc).
+  rewrite Hp in HF. destruct (square_eqb_spec (get b (r, c)) Boundary); [assumption|discriminate].
+Qed.
